@@ -640,6 +640,13 @@ fn expr_stmt_to_asg_stmt(expr_stmt: synast::ExprStmt, context: &mut Context) -> 
     }
 }
 
+// Log `NotImplementedError` for an expression that the ASG cannot (yet) represent
+// and return a placeholder, so that analysis of the rest of the program continues.
+fn not_impl_expr<T: synast::AstNode>(context: &mut Context, node: &T) -> Option<asg::TExpr> {
+    context.insert_error(NotImplementedError, node);
+    Some(asg::TExpr::new(asg::Expr::NullExpr, Type::Undefined))
+}
+
 fn paren_expr_to_asg_texpr(
     paren_expr: synast::ParenExpr,
     context: &mut Context,
@@ -647,15 +654,16 @@ fn paren_expr_to_asg_texpr(
     expr_to_asg_texpr(paren_expr.expr(), context)
 }
 
-fn negative_float_number_to_asg_type(f: synast::FloatNumber) -> asg::FloatLiteral {
-    let num = f.value().unwrap();
+fn negative_float_number_to_asg_type(f: synast::FloatNumber) -> Option<asg::FloatLiteral> {
+    let num = f.value()?;
     let float = format!("-{num}");
-    asg::FloatLiteral::new(float)
+    Some(asg::FloatLiteral::new(float))
 }
 
-fn negative_int_to_asg_type(n: synast::IntNumber) -> asg::IntLiteral {
-    let num = n.value_u128().unwrap(); // fn value_u128 is kind of a hack
-    asg::IntLiteral::new(num, false) // `false` means negative
+// Returns `None` if the magnitude does not fit in 128 bits.
+fn negative_int_to_asg_type(n: synast::IntNumber) -> Option<asg::IntLiteral> {
+    let num = n.value_u128()?; // fn value_u128 is kind of a hack
+    Some(asg::IntLiteral::new(num, false)) // `false` means negative
 }
 
 fn expr_to_asg_texpr(
@@ -669,67 +677,97 @@ fn expr_to_asg_texpr(
         // with negative values.
         synast::Expr::PrefixExpr(prefix_expr) => match prefix_expr.op_kind() {
             Some(synast::UnaryOp::Neg) => match prefix_expr.expr() {
-                Some(synast::Expr::Literal(ref literal)) => Some(match literal.kind() {
+                Some(synast::Expr::Literal(ref literal)) => match literal.kind() {
                     synast::LiteralKind::FloatNumber(f) => {
-                        negative_float_number_to_asg_type(f).to_texpr()
+                        match negative_float_number_to_asg_type(f) {
+                            Some(float_literal) => Some(float_literal.to_texpr()),
+                            None => not_impl_expr(context, &prefix_expr),
+                        }
                     }
-                    synast::LiteralKind::IntNumber(n) => negative_int_to_asg_type(n).to_texpr(),
-                    _ => {
-                        // This will take some work
-                        //                        context.insert_error(NotImplementedError, &prefix_expr);
-                        //                        Some(asg::Expr::NullExpr).to_texpr()
-                        //                        Some(asg::Stmt::NullStmt)
-                        panic!("Only integers and floats are supported as operands to unary minus.")
-                    }
-                }),
+                    synast::LiteralKind::IntNumber(n) => match negative_int_to_asg_type(n) {
+                        Some(int_literal) => Some(int_literal.to_texpr()),
+                        // Integer literals wider than 128 bits are not supported.
+                        None => not_impl_expr(context, &prefix_expr),
+                    },
+                    // Unary minus applied to other literals (bool, bit string, ...).
+                    _ => not_impl_expr(context, &prefix_expr),
+                },
 
                 Some(synast::Expr::TimingLiteral(ref timing_literal)) => {
-                    match timing_literal.time_unit().unwrap() {
-                        synast::TimeUnit::Imaginary => {
-                            Some(match timing_literal.literal().unwrap().kind() {
-                                synast::LiteralKind::FloatNumber(f) => {
-                                    negative_float_number_to_asg_type(f).to_imaginary_texpr()
-                                }
-                                synast::LiteralKind::IntNumber(n) => {
-                                    negative_int_to_asg_type(n).to_imaginary_texpr()
-                                }
-                                _ => panic!("You have found a bug in oq3_syntax or oq3_parser"),
-                            })
+                    let (Some(time_unit), Some(literal)) =
+                        (timing_literal.time_unit(), timing_literal.literal())
+                    else {
+                        return not_impl_expr(context, &prefix_expr);
+                    };
+                    match (time_unit, literal.kind()) {
+                        (synast::TimeUnit::Imaginary, synast::LiteralKind::FloatNumber(f)) => {
+                            match negative_float_number_to_asg_type(f) {
+                                Some(float_literal) => Some(float_literal.to_imaginary_texpr()),
+                                None => not_impl_expr(context, &prefix_expr),
+                            }
                         }
-                        _ => {
-                            panic!("Only floats are supported as operands to unary minus.")
+                        (synast::TimeUnit::Imaginary, synast::LiteralKind::IntNumber(n)) => {
+                            match negative_int_to_asg_type(n) {
+                                Some(int_literal) => Some(int_literal.to_imaginary_texpr()),
+                                None => not_impl_expr(context, &prefix_expr),
+                            }
                         }
+                        // Negative durations.
+                        (unit, synast::LiteralKind::IntNumber(n)) => {
+                            match (time_unit_to_asg_type(unit), n.value_u128()) {
+                                (Some(time_unit), Some(num)) => Some(
+                                    asg::TimingIntLiteral::new(num, false, time_unit).to_texpr(),
+                                ),
+                                _ => not_impl_expr(context, &prefix_expr),
+                            }
+                        }
+                        (unit, synast::LiteralKind::FloatNumber(f)) => {
+                            match (time_unit_to_asg_type(unit), f.value()) {
+                                (Some(time_unit), Some(num)) => Some(
+                                    asg::TimingFloatLiteral::new(num, false, time_unit).to_texpr(),
+                                ),
+                                _ => not_impl_expr(context, &prefix_expr),
+                            }
+                        }
+                        _ => not_impl_expr(context, &prefix_expr),
                     }
                 }
 
-                Some(synexpr) => Some(
-                    asg::UnaryExpr::new(
-                        asg::UnaryOp::Minus,
-                        expr_to_asg_texpr(Some(synexpr), context).unwrap(),
-                    )
-                    .to_texpr(),
-                ),
+                Some(synexpr) => match expr_to_asg_texpr(Some(synexpr), context) {
+                    Some(operand) => {
+                        Some(asg::UnaryExpr::new(asg::UnaryOp::Minus, operand).to_texpr())
+                    }
+                    None => not_impl_expr(context, &prefix_expr),
+                },
 
-                None => {
-                    panic!("You have found a bug in oq3_parser. No operand to unary minus found.")
-                }
+                None => not_impl_expr(context, &prefix_expr),
             },
-            Some(op) => {
-                panic!("Unary operators other than minus are not supported. Found '{op:?}.'")
+            // Logical not `!` and bitwise not `~` are not yet supported in the ASG.
+            // The operand is analyzed nonetheless, in order to find errors in it.
+            _ => {
+                let _ = expr_to_asg_texpr(prefix_expr.expr(), context);
+                not_impl_expr(context, &prefix_expr)
             }
-            _ => panic!("You have found a bug in oq3_parser. No operand to unary operator found."),
         },
 
         synast::Expr::ParenExpr(paren_expr) => paren_expr_to_asg_texpr(paren_expr, context),
 
         synast::Expr::BinExpr(bin_expr) => {
-            let synast_op = bin_expr.op_kind().unwrap();
+            let Some(synast_op) = bin_expr.op_kind() else {
+                return not_impl_expr(context, &bin_expr);
+            };
             let left_syn = bin_expr.lhs();
             let right_syn = bin_expr.rhs();
 
-            let op = binary_op_to_asg_type(synast_op);
-            let left = expr_to_asg_texpr(left_syn, context).unwrap();
-            let right = expr_to_asg_texpr(right_syn, context).unwrap();
+            let left = expr_to_asg_texpr(left_syn, context);
+            let right = expr_to_asg_texpr(right_syn, context);
+            // Operators that are not yet supported in the ASG (ordering comparisons, logical
+            // operators, compound assignment) are reported, not translated.
+            let (Some(op), Some(left), Some(right)) =
+                (binary_op_to_asg_type(synast_op), left, right)
+            else {
+                return not_impl_expr(context, &bin_expr);
+            };
             // There are no binary ops that accept quantum operands.
             if left.get_type().is_quantum() {
                 // Generate the ast node again, for the borrow checker. But we are already
@@ -742,7 +780,11 @@ fn expr_to_asg_texpr(
             Some(asg::BinaryExpr::new_texpr_with_cast(op, left, right))
         }
 
-        synast::Expr::Literal(ref literal) => literal_to_asg_texpr(literal),
+        synast::Expr::Literal(ref literal) => match literal_to_asg_texpr(literal) {
+            Some(texpr) => Some(texpr),
+            // String literals, integer literals wider than 128 bits, ...
+            None => not_impl_expr(context, literal),
+        },
 
         // We also handle imaginary literals here along with timing literals.
         // This makes no sense on the level of semantics. But at all eariler points,
@@ -750,39 +792,42 @@ fn expr_to_asg_texpr(
         // if it were a timing suffix. We could try to fix this, but it would add
         // code paths and complexity from lexing on up.
         synast::Expr::TimingLiteral(ref timing_literal) => {
-            let ast_time_unit = timing_literal.time_unit().unwrap();
+            let (Some(ast_time_unit), Some(literal)) =
+                (timing_literal.time_unit(), timing_literal.literal())
+            else {
+                return not_impl_expr(context, timing_literal);
+            };
+            // The value is `None` if it does not fit the representation (128 bits for integers).
+            let int_value = |int_num: &synast::IntNumber| int_num.value_u128();
             if matches!(ast_time_unit, synast::TimeUnit::Imaginary) {
-                return match timing_literal.literal().unwrap().kind() {
-                    synast::LiteralKind::IntNumber(int_num) => {
-                        let num = int_num.value_u128().unwrap();
-                        Some(asg::IntLiteral::new(num, true).to_imaginary_texpr())
-                    }
-                    synast::LiteralKind::FloatNumber(float_num) => {
-                        let num = float_num.value().unwrap();
-                        Some(asg::FloatLiteral::new(num).to_imaginary_texpr())
-                    }
-                    _ => panic!("You have found a bug in oq3_syntax or oq3_parser"),
+                return match literal.kind() {
+                    synast::LiteralKind::IntNumber(int_num) => match int_value(&int_num) {
+                        Some(num) => Some(asg::IntLiteral::new(num, true).to_imaginary_texpr()),
+                        None => not_impl_expr(context, timing_literal),
+                    },
+                    synast::LiteralKind::FloatNumber(float_num) => match float_num.value() {
+                        Some(num) => Some(asg::FloatLiteral::new(num).to_imaginary_texpr()),
+                        None => not_impl_expr(context, timing_literal),
+                    },
+                    _ => not_impl_expr(context, timing_literal),
                 };
             }
-            let time_unit = match ast_time_unit {
-                synast::TimeUnit::Second => asg::TimeUnit::Second,
-                synast::TimeUnit::MilliSecond => asg::TimeUnit::MilliSecond,
-                synast::TimeUnit::MicroSecond => asg::TimeUnit::MicroSecond,
-                synast::TimeUnit::NanoSecond => asg::TimeUnit::NanoSecond,
-                synast::TimeUnit::Cycle => asg::TimeUnit::Cycle,
-                // Imaginary was handled above.
-                synast::TimeUnit::Imaginary => unreachable!(),
+            // Imaginary was handled above.
+            let Some(time_unit) = time_unit_to_asg_type(ast_time_unit) else {
+                return not_impl_expr(context, timing_literal);
             };
-            match timing_literal.literal().unwrap().kind() {
-                synast::LiteralKind::IntNumber(int_num) => {
-                    let num = int_num.value_u128().unwrap();
-                    Some(asg::TimingIntLiteral::new(num, true, time_unit).to_texpr())
-                }
-                synast::LiteralKind::FloatNumber(float_num) => {
-                    let num = float_num.value().unwrap();
-                    Some(asg::TimingFloatLiteral::new(num, true, time_unit).to_texpr())
-                }
-                _ => panic!("You have found a bug in oq3_syntax or oq3_parser"),
+            match literal.kind() {
+                synast::LiteralKind::IntNumber(int_num) => match int_value(&int_num) {
+                    Some(num) => Some(asg::TimingIntLiteral::new(num, true, time_unit).to_texpr()),
+                    None => not_impl_expr(context, timing_literal),
+                },
+                synast::LiteralKind::FloatNumber(float_num) => match float_num.value() {
+                    Some(num) => {
+                        Some(asg::TimingFloatLiteral::new(num, true, time_unit).to_texpr())
+                    }
+                    None => not_impl_expr(context, timing_literal),
+                },
+                _ => not_impl_expr(context, timing_literal),
             }
         }
 
@@ -832,16 +877,28 @@ fn expr_to_asg_texpr(
 
         synast::Expr::CallExpr(call_expr) => Some(call_expr_to_asg_texpr(call_expr, context)),
 
-        // Followng may be a parser error. But I think we will need to support BlockExpr anywhere here.
-        synast::Expr::BlockExpr(_) => panic!("BlockExpr not supported."),
-
-        synast::Expr::ArrayExpr(_) => panic!("ArrayExpr not supported {expr:?}"),
-        synast::Expr::ArrayLiteral(_) => panic!("ArrayLiteral not supported {expr:?}"),
-        synast::Expr::BoxExpr(_) => panic!("BoxExpr not supported {expr:?}"),
-        synast::Expr::GateCallExpr(_)
+        // These are not supported in the ASG. Gate calls are statements, they can
+        // appear here only if they are written where an expression is expected.
+        synast::Expr::BlockExpr(_)
+        | synast::Expr::ArrayExpr(_)
+        | synast::Expr::ArrayLiteral(_)
+        | synast::Expr::BoxExpr(_)
+        | synast::Expr::GateCallExpr(_)
         | synast::Expr::GPhaseCallExpr(_)
         | synast::Expr::DimExpr(_)
-        | synast::Expr::ModifiedGateCallExpr(_) => panic!("You have found a bug in oq3_parser."),
+        | synast::Expr::ModifiedGateCallExpr(_) => not_impl_expr(context, &expr),
+    }
+}
+
+// Returns `None` for the imaginary unit, which is not a unit of time.
+fn time_unit_to_asg_type(time_unit: synast::TimeUnit) -> Option<asg::TimeUnit> {
+    match time_unit {
+        synast::TimeUnit::Second => Some(asg::TimeUnit::Second),
+        synast::TimeUnit::MilliSecond => Some(asg::TimeUnit::MilliSecond),
+        synast::TimeUnit::MicroSecond => Some(asg::TimeUnit::MicroSecond),
+        synast::TimeUnit::NanoSecond => Some(asg::TimeUnit::NanoSecond),
+        synast::TimeUnit::Cycle => Some(asg::TimeUnit::Cycle),
+        synast::TimeUnit::Imaginary => None,
     }
 }
 
@@ -1030,8 +1087,9 @@ fn expression_list_to_asg_texpr(
         .collect()
 }
 
-fn binary_op_to_asg_type(synast_op: synast::BinaryOp) -> asg::BinaryOp {
-    match synast_op {
+// Returns `None` for operators that have no representation in the ASG (yet).
+fn binary_op_to_asg_type(synast_op: synast::BinaryOp) -> Option<asg::BinaryOp> {
+    let op = match synast_op {
         synast::BinaryOp::ArithOp(arith_op) => {
             use asg::BinaryOp::ArithOp;
             use synast::ArithOp::*;
@@ -1061,16 +1119,17 @@ fn binary_op_to_asg_type(synast_op: synast::BinaryOp) -> asg::BinaryOp {
             match cmp_op {
                 Eq { negated: false } => CmpOp(asg::CmpOp::Eq),
                 Eq { negated: true } => CmpOp(asg::CmpOp::Neq),
-                Ord { .. } => {
-                    panic!("Comparision operators other than `=` and `!=` are not supported.")
-                }
+                // Comparision operators other than `==` and `!=` are not supported.
+                Ord { .. } => return None,
             }
         }
         synast::BinaryOp::ConcatenationOp => asg::BinaryOp::ConcatenationOp,
         synast::BinaryOp::PowerOp => asg::BinaryOp::ConcatenationOp,
-        synast::BinaryOp::LogicOp(_) => panic!("Binary logic operators unsupported."),
-        synast::BinaryOp::Assignment { .. } => panic!("Unsupported binary operator"),
-    }
+        // Binary logic operators and compound assignment are not supported.
+        synast::BinaryOp::LogicOp(_) => return None,
+        synast::BinaryOp::Assignment { .. } => return None,
+    };
+    Some(op)
 }
 
 fn literal_to_asg_texpr(literal: &synast::Literal) -> Option<asg::TExpr> {
@@ -1078,12 +1137,12 @@ fn literal_to_asg_texpr(literal: &synast::Literal) -> Option<asg::TExpr> {
         synast::LiteralKind::Bool(bool_val) => asg::BoolLiteral::new(bool_val).to_texpr(),
 
         synast::LiteralKind::IntNumber(int_num) => {
-            let num = int_num.value_u128().unwrap(); // fn value_u128 is kind of a hack
+            let num = int_num.value_u128()?; // fn value_u128 is kind of a hack
             asg::IntLiteral::new(num, true).to_texpr() // `true` means positive literal.
         }
 
         synast::LiteralKind::FloatNumber(float_num) => {
-            let num = float_num.value().unwrap();
+            let num = float_num.value()?;
             let float = format!("{num}");
             asg::FloatLiteral::new(float).to_texpr()
         }
@@ -1092,9 +1151,10 @@ fn literal_to_asg_texpr(literal: &synast::Literal) -> Option<asg::TExpr> {
             asg::BitStringLiteral::new(bit_string.str()?).to_texpr()
         }
 
+        // Not supported in the ASG.
         synast::LiteralKind::Byte(_)
         | synast::LiteralKind::Char(_)
-        | synast::LiteralKind::String(_) => todo!(),
+        | synast::LiteralKind::String(_) => return None,
     };
     Some(literal_texpr)
 }
